@@ -26,15 +26,28 @@ MANIFEST = dict(
          "nested record, indices, logLmin/logLmax, counters against the Lean model after every call, (b) the real "
          "insert_live_point alone including the index-0 failure, (c) complete real FlowSampler runs (rejection, analytic and "
          "flow proposals, checkpoint + kill + resume) whose every consume_sample is replayed through the Lean model; the "
-         "property's predicates are also evaluated directly on every real step (oracle).",
+         "property's predicates are also evaluated directly on every real step (oracle). Checkpoint/resume scope: the "
+         "theorems treat consume_sample as one atomic step, so they cover checkpoints written at iteration boundaries "
+         "(update_state, training at the top of the loop, end of run) — resumes from those are exercised and must pass, also "
+         "with checkpoint_on_training=True. A checkpoint written INSIDE consume_sample is not covered and does break the "
+         "property: machine-checked counter-example resume_mid_consume_breaks_inv on the model (whose beginConsume/consume are "
+         "tied to the real code by kill-inside-consume scenarios), reproduced on the real code by a run killed right after a "
+         "checkpoint_on_training checkpoint written from consume_sample -> check_state -> train_proposal and resumed from it "
+         "(worst point recorded twice, one insertion index missing) = known finding "
+         "NestedSampler.train_proposal:checkpoint_on_training:checkpoint-inside-consume_sample (F25; the signal-handler variant "
+         "is F4 under C13).",
     note="Assumed: likelihoods are finite, -inf or NaN (no +inf); proposals return log-priors that are finite or -inf and finite "
          "only inside the bounds (the sampler itself only tests logP != -inf: run_prior_finite_fails_without); np.searchsorted on "
-         "a sorted array = count of smaller elements; checkpoint/resume restores the pickled state (C12); interrupts inside "
-         "consume_sample are C13.",
+         "a sorted array = count of smaller elements; checkpoint/resume restores the pickled state (C12); the invariant is claimed "
+         "only across checkpoints written at iteration boundaries — mid-iteration checkpoints (checkpoint_on_training inside "
+         "consume_sample: F25, reproduced here as a known finding; signal handler inside consume_sample: F4/C13) are "
+         "counter-examples, not exclusions.",
     technique="Lean 4 proof (loop invariant, induction over iterations) + differential correspondence with the real sampler + trace replay",
     ref="5/C01")
 
 _T = {}
+KILL = object()
+MID_KEY = "NestedSampler.train_proposal:checkpoint_on_training:checkpoint-inside-consume_sample"
 
 
 def _nessai():
@@ -53,6 +66,10 @@ def _nessai():
 
     class ScriptExhausted(Exception):
         pass
+
+    class ScriptKill(Exception):
+        """raised by the scripted proposal on its first draw: consume_sample is abandoned after the worst point was
+        recorded and the iteration counted, before any replacement (what a mid-iteration checkpoint pickles)"""
 
     class ScriptModel(Model):
         """likelihood = the parameter `l`; in bounds <=> 0 <= b <= 1 (and id, l in their wide bounds)"""
@@ -90,6 +107,9 @@ def _nessai():
         def draw(self, old):
             if not self.queue:
                 raise ScriptExhausted()
+            if self.queue[0] is KILL:
+                self.queue.pop(0)
+                raise ScriptKill()
             rec, popd = self.queue.pop(0)
             self.draws += 1
             self.populated = popd
@@ -113,7 +133,8 @@ def _nessai():
             return ll
 
     _T.update(np=np, torch=torch, empty=empty_structured_array, NestedSampler=NestedSampler, Proposal=Proposal,
-              ScriptModel=ScriptModel, Scripted=Scripted, ScriptExhausted=ScriptExhausted, Gauss=Gauss)
+              ScriptModel=ScriptModel, Scripted=Scripted, ScriptExhausted=ScriptExhausted, ScriptKill=ScriptKill,
+              Gauss=Gauss)
     return _T
 
 
@@ -418,6 +439,14 @@ def run_scripted(ctx, sc, n, ops, gen=None, fixed=None, boundary=False, label="s
                         cnt = 0
                     elif op == "c":
                         ns.consume_sample()
+                    elif op == "m":
+                        # kill inside consume_sample (before the first draw returns), then carry on with the same state:
+                        # pickling + resuming is the identity, so this is "resume from a mid-iteration checkpoint"
+                        queue.insert(0, KILL)
+                        try:
+                            ns.consume_sample()
+                        except T["ScriptKill"]:
+                            pass
                     elif op == "f":
                         before_live = ns.live_points.copy()
                         before_nested = [np.asarray(p).copy() for p in ns.nested_samples]
@@ -556,6 +585,39 @@ def scripted(ctx, budget_steps, oracle_only=False):
     return total
 
 
+def scripted_mid(ctx):
+    """`consume_sample` abandoned after its first half (op m) and restarted on the same state — what resuming from a
+    checkpoint written inside consume_sample does.  Only the model tie is demanded here (the model's beginConsume /
+    consume reproduce the real state, duplicate record included); the property itself is known to fail on such histories
+    (Props/C01.resume_mid_consume_breaks_inv, known findings F25/F4)."""
+    sc = Script()
+    lines, impls, cases = [], [], []
+    reproduced = 0
+    for t in range(ctx.scale(25, 250)):
+        n = ctx.rng.choice([2, 3, 5, 10, 13])
+        pre, post = ctx.rng.randint(0, 2 * n), ctx.rng.randint(1, n + 2)
+        ops = "p" + "c" * pre + "m" + "c" * post
+        if ctx.rng.random() < 0.3:
+            ops += "m" + "c" * ctx.rng.randint(1, 3)
+        gen = Gen(ctx.rng, False)
+        case, line, impl, kinds = run_scripted(ctx, sc, n, ops, gen=gen, label="scripted-mid-consume")
+        lines.append(line)
+        impls.append(impl)
+        cases.append(case)
+        fin = impl.split(" || ")[1]
+        ids = [tok.split(":")[0] for tok in fin.split(" ")[0][len("nested=["):-1].split(",") if tok]
+        nidx = len([x for x in fin.split(" ")[1][len("idx=["):-1].split(",") if x])
+        if len(set(ids)) < len(ids) and nidx == len(ids) - ops.count("m"):
+            reproduced += 1
+        for j in range(len(case["ops"])):
+            ctx.case((line, j), True, None, kind="mid-consume:" + {"p": "populate", "c": "consume", "m": "kill-inside-consume"}[case["ops"][j]])
+    outs = ctx.model(lines)
+    for line, out, impl, case in zip(lines, outs, impls, cases):
+        if out != impl:
+            diff_run(ctx, line, impl, case)
+    ctx.extra["mid_consume_scripted"] = dict(scenarios=len(lines), double_record_reproduced_on_real_code=reproduced)
+
+
 # ---------------------------------------------------------------------------------------------- (b) insert_live_point alone
 def insert_alone(ctx):
     """the real insert_live_point on crafted sorted live sets, including points not above the minimum (index 0)"""
@@ -612,6 +674,11 @@ class Recorder:
         self.draws = []
         self.stop_at = None
         self.patched = []
+        self.in_consume = False
+        self.in_training = False
+        self.kill_after_dump = None   # None | "mid" | "boundary": kill right after a training-triggered checkpoint
+        self.dumps = []               # (iteration, inside consume_sample, inside train_proposal)
+        self.killed_at = None
 
     class Stop(Exception):
         pass
@@ -643,7 +710,11 @@ class Recorder:
             snap = dict(live=self.live_points.copy(), nnested=len(self.nested_samples), iter=self.iteration,
                         nidx=len(self.insertion_indices), rejected=self.rejected)
             rec.draws = []
-            orig_consume(self)
+            rec.in_consume = True
+            try:
+                orig_consume(self)
+            finally:
+                rec.in_consume = False
             rec.steps.append(dict(snap=snap, after=self.live_points.copy(), idx=int(self.insertion_indices[-1]),
                                   draws=rec.draws, rejected=self.rejected - snap["rejected"],
                                   count=(1.0 / self.acceptance_history[-1]) if len(self.acceptance_history) else None,
@@ -656,6 +727,31 @@ class Recorder:
             rec.draws = []
         NS.consume_sample = consume_sample
         self.patched.append((NS, "consume_sample", orig_consume))
+        orig_train = NS.train_proposal
+
+        def train_proposal(self, *a, **k):
+            rec.in_training = True
+            try:
+                return orig_train(self, *a, **k)
+            finally:
+                rec.in_training = False
+        NS.train_proposal = train_proposal
+        self.patched.append((NS, "train_proposal", orig_train))
+        import nessai.samplers.base as sb
+        orig_dump = sb.safe_file_dump
+
+        def safe_file_dump(obj, filename, *a, **k):
+            orig_dump(obj, filename, *a, **k)
+            it = getattr(obj, "iteration", None)
+            rec.dumps.append((it, rec.in_consume, rec.in_training))
+            want = rec.kill_after_dump
+            if want and rec.in_training and it is not None and it > obj.nlive and (
+                    (want == "mid") == rec.in_consume):
+                rec.killed_at = (it, rec.in_consume)
+                rec.kill_after_dump = None
+                raise Recorder.Stop()   # the process dies right after this checkpoint reached the disk
+        sb.safe_file_dump = safe_file_dump
+        self.patched.append((sb, "safe_file_dump", orig_dump))
 
     def remove(self):
         for cls, name, orig in reversed(self.patched):
@@ -664,7 +760,7 @@ class Recorder:
 
 
 TRACE_KINDS = ["rejection", "analytic", "flow", "flow-resume", "rejection-resume", "flow-nball", "analytic-resume",
-               "flow-memory"]
+               "flow-memory", "flow-trainckpt-boundary-resume", "flow-trainckpt-mid-resume"]
 TRACE_KINDS_THOROUGH = TRACE_KINDS + ["flow-truncgauss", "flow-reparam", "flow-novolume", "flow-nball-resume"]
 
 
@@ -689,7 +785,19 @@ def trace_config(kind, seed, nlive):
             kw.update(constant_volume_mode=False)
         if "memory" in kind:
             kw.update(memory=10, reset_weights=1, training_frequency=30, cooldown=10)
-    if kind.endswith("resume"):
+    if "trainckpt" in kind:
+        # checkpoint_on_training=True: train_proposal checkpoints (subject to the interval); poolsize = nlive so that the
+        # pool often runs empty on a refused draw INSIDE consume_sample (-> check_state -> train_proposal -> checkpoint)
+        kw.update(checkpointing=True, checkpoint_on_iteration=True, checkpoint_interval=1, checkpoint_on_training=True,
+                  poolsize=nlive, training_frequency=None, cooldown=10)
+        if "boundary" in kind:
+            # large pool + frequent scheduled training: train_proposal is reached from check_state at the top of the loop,
+            # i.e. the training-triggered checkpoint is written at an iteration boundary
+            # (time-based interval 0: with an iteration-based interval the checkpoint requested by a training at the top of
+            #  the loop is skipped, update_state having checkpointed the same iteration already)
+            kw.update(poolsize=4 * nlive, training_frequency=15, cooldown=5, checkpoint_on_iteration=False,
+                      checkpoint_interval=0)
+    elif kind.endswith("resume"):
         kw.update(checkpointing=True, checkpoint_on_iteration=True, checkpoint_interval=max(7, nlive // 3))
     return kw
 
@@ -714,7 +822,12 @@ def run_trace(ctx, kind, seed, nlive, dims=2):
         kw = trace_config(kind, seed, nlive)
         with contextlib.redirect_stderr(io.StringIO()):
             if kind.endswith("resume"):
-                rec.stop_at = nlive + 5 + (seed % 17)
+                if "trainckpt-mid" in kind:
+                    rec.kill_after_dump = "mid"
+                elif "trainckpt-boundary" in kind:
+                    rec.kill_after_dump = "boundary"
+                else:
+                    rec.stop_at = nlive + 5 + (seed % 17)
                 fs = FlowSampler(model, output=out, resume=True, **kw)
                 try:
                     fs.run(plot=False, save=False)
@@ -723,10 +836,12 @@ def run_trace(ctx, kind, seed, nlive, dims=2):
                 segments.append(rec.steps)
                 rec.steps = []
                 rec.stop_at = None
+                rec.kill_after_dump = None
+                case["killed_at"] = rec.killed_at
                 model = T["Gauss"](dims)
                 fs = FlowSampler(model, output=out, resume=True, **kw)
-                if not fs.ns.resumed and fs.ns.iteration == 0:
-                    case["note"] = "no checkpoint written before the stop"
+                if fs.ns.finalised:
+                    case["note"] = "the first run finished before the kill condition occurred"
                 fs.run(plot=False, save=False)
                 segments.append(rec.steps)
             else:
@@ -745,6 +860,25 @@ def run_trace(ctx, kind, seed, nlive, dims=2):
         rec.remove()
         shutil.rmtree(out, ignore_errors=True)
     ns = fs.ns
+    # resumed from a checkpoint written INSIDE consume_sample (observed by the dump hook, not inferred from the outcome):
+    # the known defect F25 — the failures it causes are reported under its own key
+    mid = bool(rec.killed_at and rec.killed_at[1])
+    real_fail = ctx.oracle_fail
+
+    class Routed:
+        """ctx with oracle_fail re-keyed for the predicates the mid-iteration checkpoint is known to break"""
+
+        def __getattr__(self, name):
+            return getattr(ctx, name)
+
+        def oracle_fail(self, key, what, c):
+            if mid and key in ("resume:untouched", "run:recorded-once", "run:index-recorded-once"):
+                hits["n"] += 1
+                real_fail(MID_KEY, f"[{key}] {what}", c)
+            else:
+                real_fail(key, what, c)
+    hits = {"n": 0}
+    octx = Routed()
     lines, impls, cases = [], [], []
     after_by_iter = {}
     nsteps = 0
@@ -756,16 +890,16 @@ def run_trace(ctx, kind, seed, nlive, dims=2):
             it0 = snap["iter"]
             cdict = dict(case, segment=si, iteration=it0 + 1)
 
-            oracle_step(ctx, np, model, snap, View(st, nlive), cdict, tag="consume_sample(run)")
+            oracle_step(octx, np, model, snap, View(st, nlive), cdict, tag="consume_sample(run)")
             # continuity: nothing touches the live set between iterations, nor does checkpoint + resume
             if prev_after is not None and not same(prev_after, snap["live"]):
-                ctx.oracle_fail("between-iterations:untouched", "live set changed between two consume_sample calls", cdict)
+                octx.oracle_fail("between-iterations:untouched", "live set changed between two consume_sample calls", cdict)
             if si > 0 and prev_after is None:
                 ref = after_by_iter.get(it0)
                 if it0 == 0:
                     pass
                 elif ref is None or not same(ref, snap["live"]):
-                    ctx.oracle_fail("resume:untouched", "live set after resume differs from the checkpointed iteration", cdict)
+                    octx.oracle_fail("resume:untouched", "live set after resume differs from the checkpointed iteration", cdict)
             prev_after = st["after"]
             if si == 0:
                 after_by_iter[it0 + 1] = st["after"]
@@ -779,15 +913,15 @@ def run_trace(ctx, kind, seed, nlive, dims=2):
     if ns.finalised:
         ll = nested["logL"]
         if np.any(np.diff(ll) < 0):
-            ctx.oracle_fail("run:nested-monotone", "nested likelihoods of the finished run decrease somewhere", case)
+            octx.oracle_fail("run:nested-monotone", "nested likelihoods of the finished run decrease somewhere", case)
         if len(nested) != ns.iteration + nlive:
-            ctx.oracle_fail("run:recorded-once", f"{len(nested)} nested samples after {ns.iteration} iterations, nlive={nlive}", case)
+            octx.oracle_fail("run:recorded-once", f"{len(nested)} nested samples after {ns.iteration} iterations, nlive={nlive}", case)
         from numpy.lib.recfunctions import structured_to_unstructured
         coords = structured_to_unstructured(nested[list(model.names)])
         if len(np.unique(coords, axis=0)) != len(nested):
-            ctx.oracle_fail("run:recorded-once", "a point appears twice in the nested samples of the finished run", case)
+            octx.oracle_fail("run:recorded-once", "a point appears twice in the nested samples of the finished run", case)
         if len(ns.insertion_indices) != ns.iteration:
-            ctx.oracle_fail("run:index-recorded-once", f"{len(ns.insertion_indices)} indices for {ns.iteration} iterations", case)
+            octx.oracle_fail("run:index-recorded-once", f"{len(ns.insertion_indices)} indices for {ns.iteration} iterations", case)
         # every recorded removal is in the record at its iteration
         allsteps = {}
         for steps in segments:
@@ -795,15 +929,25 @@ def run_trace(ctx, kind, seed, nlive, dims=2):
                 allsteps[st["snap"]["iter"]] = st
         for it0, st in allsteps.items():
             if not same(np.asarray(nested[it0]), np.asarray(st["snap"]["live"][0])):
-                ctx.oracle_fail("run:recorded-once", f"nested sample #{it0} is not the point removed at that iteration", case)
+                octx.oracle_fail("run:recorded-once", f"nested sample #{it0} is not the point removed at that iteration", case)
                 break
-            if int(ns.insertion_indices[it0]) != st["idx"]:
-                ctx.oracle_fail("run:index-recorded-once", f"insertion index #{it0} changed after it was recorded", case)
+            if it0 >= len(ns.insertion_indices) or int(ns.insertion_indices[it0]) != st["idx"]:
+                octx.oracle_fail("run:index-recorded-once", f"insertion index #{it0} changed after it was recorded", case)
                 break
     else:
-        ctx.oracle_fail("run:unfinished", "the real run did not finish", case)
+        octx.oracle_fail("run:unfinished", "the real run did not finish", case)
     ctx.diff_model(lines, impls, cases, what="model consume != recorded step of a real run")
     ctx.traces += 1
+    if "trainckpt" in kind:
+        d = ctx.extra.setdefault("checkpoint_on_training", dict(mid_consume_resumes=0, mid_consume_resumes_violating=0,
+                                                                boundary_resumes=0, not_triggered=0))
+        if rec.killed_at is None:
+            d["not_triggered"] += 1
+        elif mid:
+            d["mid_consume_resumes"] += 1
+            d["mid_consume_resumes_violating"] += int(hits["n"] > 0)
+        else:
+            d["boundary_resumes"] += 1
     ctx.extra["trace_steps"] = ctx.extra.get("trace_steps", 0) + nsteps
     return nsteps
 
@@ -865,7 +1009,7 @@ def step_line(np, model, st, nlive):
 
 
 def traces(ctx):
-    n = ctx.scale(8, 48)
+    n = ctx.scale(10, 48)
     kinds = TRACE_KINDS if ctx.quick else TRACE_KINDS_THOROUGH
     t0 = time.time()
     for t in range(n):
@@ -873,8 +1017,17 @@ def traces(ctx):
         seed = ctx.rng.randint(1, 10 ** 6)
         nlive = ctx.rng.choice([50, 60, 80, 100])
         dims = 2 if ctx.quick else ctx.rng.choice([2, 2, 3])
+        mid_before = ctx.extra.get("checkpoint_on_training", {}).get("mid_consume_resumes", 0)
         run_trace(ctx, kind, seed, nlive, dims)
         ctx.hist["run:" + kind] += 1
+        if "trainckpt-mid" in kind:
+            # whether a training is triggered inside consume_sample depends on the seed: retry a few seeds so that every
+            # run of the check exercises a resume from a mid-iteration checkpoint
+            for _ in range(4):
+                if ctx.extra.get("checkpoint_on_training", {}).get("mid_consume_resumes", 0) > mid_before:
+                    break
+                run_trace(ctx, kind, ctx.rng.randint(1, 10 ** 6), nlive, dims)
+                ctx.hist["run:" + kind] += 1
     ctx.extra["trace_wall_s"] = round(time.time() - t0, 1)
 
 
@@ -910,7 +1063,9 @@ def correspond(ctx):
     ctx.assume("likelihoods are finite, -inf or NaN, never +inf (DESIGN appendix C)",
                "proposals return log-priors that are finite or -inf; finite only inside the bounds (checked on every accepted "
                "candidate of the real runs by the oracle)",
-               "checkpoint + resume restores the pickled sampler state (C12); an interrupt inside consume_sample is C13")
+               "checkpoint + resume restores the pickled sampler state (C12); the property is claimed across checkpoints written "
+               "at iteration boundaries only: a checkpoint written inside consume_sample (checkpoint_on_training -> F25, "
+               "reproduced here; signal handler -> F4/C13) breaks it (Props/C01.resume_mid_consume_breaks_inv)")
     ctx.trust("hand-written model Model/LiveSet.lean (+ Np.ssl); tie = this correspondence",
               "numpy searchsorted / slice assignment / sort(order=) as exercised by the correspondence itself")
     corpus(ctx)
@@ -918,6 +1073,7 @@ def correspond(ctx):
     steps = scripted(ctx, ctx.scale(6000, 60000))
     ctx.extra["scripted_calls"] = steps
     ctx.extra["scripted_wall_s"] = round(time.time() - t0, 1)
+    scripted_mid(ctx)
     insert_alone(ctx)
     traces(ctx)
 
